@@ -1,0 +1,71 @@
+//go:build verif
+
+package kafka
+
+// Machine-checked contracts (govc, see /verif/DESIGN.md). Comment-only file.
+
+//@ property C13
+
+//@ func murmur2
+//@   mode bv
+//@   ensures result == spec.murmur2(data)
+//@   loop 0 invariant 0 <= i && i <= length4 && length == len(data) && length4 == length/4
+//@   loop 0 invariant h == spec.murmur2_blocks(data, i)
+//@   loop 0 decreases length4 - i
+
+//@ func (Murmur2Balancer).Balance
+//@   mode bv
+//@   requires len(partitions) >= 1 && len(partitions) < 1<<31
+//@   requires b.random.mock == 0
+//@   let idx = spec.java_partition(spec.murmur2(msg.Key), len(partitions))
+//@   ensures msg.Key != nil || b.Consistent ==> 0 <= idx && idx < len(partitions) && result == partitions[idx]
+//@   ensures exists k :: 0 <= k && k < len(partitions) && result == partitions[k]
+
+//@ func (CRC32Balancer).Balance
+//@   mode bv
+//@   requires len(partitions) >= 1 && len(partitions) < 1<<31
+//@   requires b.random.mock == 0
+//@   let idx = spec.rdkafka_consistent(spec.crc32_ieee(msg.Key), len(partitions))
+//@   ensures len(msg.Key) != 0 || b.Consistent ==> 0 <= idx && idx < len(partitions) && result == partitions[idx]
+//@   ensures exists k :: 0 <= k && k < len(partitions) && result == partitions[k]
+
+//@ func (randomBalancer).Balance
+//@   mode bv
+//@   requires len(partitions) >= 1
+//@   requires b.mock == 0
+//@   ensures exists k :: 0 <= k && k < len(partitions) && result == partitions[k]
+
+//@ func (*RoundRobin).Balance
+//@   mode bv
+//@   requires len(partitions) >= 1
+//@   let cs = ite(old(rr.ChunkSize) < 1, 1, old(rr.ChunkSize))
+//@   let idx = int(old(rr.counter) / uint32(cs)) % len(partitions)
+//@   ensures 0 <= idx && idx < len(partitions) && result == partitions[idx]
+//@   ensures rr.counter == old(rr.counter) + 1
+//@   modifies rr.counter, rr.ChunkSize
+
+//@ func (*RoundRobin).balance
+//@   mode bv
+//@   requires len(partitions) >= 1
+//@   let cs = ite(old(rr.ChunkSize) < 1, 1, old(rr.ChunkSize))
+//@   let idx = int(old(rr.counter) / uint32(cs)) % len(partitions)
+//@   ensures 0 <= idx && idx < len(partitions) && result == partitions[idx]
+//@   ensures rr.counter == old(rr.counter) + 1
+//@   modifies rr.counter, rr.ChunkSize
+
+//@ func (*Hash).Balance
+//@   mode bv
+//@   requires len(partitions) >= 1 && len(partitions) < 1<<31
+//@   requires forall k :: 0 <= k && k < len(partitions) ==> partitions[k] == k
+//@   ensures msg.Key != nil ==> result == spec.sarama_hash(spec.hash_out(hasher, spec.hash_absorb(spec.hash_init(), msg.Key)), len(partitions))
+//@   ensures 0 <= result && result < len(partitions)
+//@   modifies h.rr.counter, h.rr.ChunkSize, region($hstate)
+
+//@ func (*ReferenceHash).Balance
+//@   mode bv
+//@   requires len(partitions) >= 1 && len(partitions) < 1<<31
+//@   requires forall k :: 0 <= k && k < len(partitions) ==> partitions[k] == k
+//@   requires h.rr.mock == 0
+//@   ensures msg.Key != nil ==> result == spec.sarama_refhash(spec.hash_out(hasher, spec.hash_absorb(spec.hash_init(), msg.Key)), len(partitions))
+//@   ensures 0 <= result && result < len(partitions)
+//@   modifies region($hstate)
